@@ -1,6 +1,13 @@
 pub mod c01;
+pub mod c03;
+pub mod c04;
 pub mod c05;
+pub mod c06;
+pub mod c07;
+pub mod c11;
 pub mod c12;
+pub mod c13;
+pub mod c19;
 
 pub fn extra_assumptions(prop: &str) -> Vec<String> {
     match prop {
